@@ -58,11 +58,14 @@ def attr_design(a, name, tprefix, types):
             att["val"] = leafval
     elif nest == "alias":
         # one alias type per (method, kind, rule): two attributes of the same shape share it
-        tn = "%sAl%s%s" % (tprefix.rstrip("0123456789")[:-1], a["kind"].capitalize(), a["rule"].capitalize())
+        # (a default declared on the alias type itself - modes tdefault / bdefault - makes it a type of its own)
+        tn = "%sAl%s%s%s" % (tprefix.rstrip("0123456789")[:-1], a["kind"].capitalize(), a["rule"].capitalize(), {"tdefault": "Td", "bdefault": "Bd"}.get(a["mode"], ""))
         if not any(t["name"] == tn for t in types):
             t = {"name": tn, "kind": "alias", "base": prim}
             if leafval:
                 t["val"] = leafval
+            if a["mode"] in ("tdefault", "bdefault"):
+                t["default"] = type_default(a)
             types.append(t)
         att["type"] = {"kind": "user", "ref": tn}
     elif nest == "elem":
@@ -108,6 +111,21 @@ def attr_design(a, name, tprefix, types):
             inner["val"] = leafval
         types.append({"name": tn, "kind": "object", "attrs": [inner]})
         att["type"] = {"kind": "user", "ref": tn}
+    elif nest == "nested_alias":
+        # a user type holding an optional attribute of alias type; the mode says where its default is declared
+        an = tprefix + "Score"
+        t = {"name": an, "kind": "alias", "base": prim}
+        if leafval:
+            t["val"] = leafval
+        if a["mode"] in ("tdefault", "bdefault"):
+            t["default"] = type_default(a)
+        types.append(t)
+        inner = {"name": "v", "type": {"kind": "user", "ref": an}}
+        if a["mode"] in ("default", "bdefault"):
+            inner["default"] = design_default(a)
+        types.append({"name": tprefix + "Holder", "kind": "object", "attrs": [inner, {"name": "w", "type": {"kind": "string"}}]})
+        att["type"] = {"kind": "user", "ref": tprefix + "Holder"}
+        att["required"] = True
     elif nest == "mapkey_alias":
         tn = tprefix + "Key"
         t = {"name": tn, "kind": "alias", "base": prim}
@@ -137,7 +155,7 @@ def attr_design(a, name, tprefix, types):
         types.append({"name": tn, "kind": "object", "attrs": [inner]})
         ref = {"kind": "user", "ref": tn}
         att["type"] = {"kind": "array", "elem": ref} if nest == "elem_nested" else {"kind": "map", "key": {"kind": "string"}, "elem": ref}
-    if a["mode"] == "default":
+    if a["mode"] in ("default", "bdefault") and nest != "nested_alias":
         att["default"] = design_default(a)
     return att
 
@@ -178,8 +196,28 @@ def default_of(a):
     return d
 
 
+DEF_MODES = ("default", "tdefault", "bdefault")
+
+
+def has_default(a):
+    """HasDefault of lib/Values.tla: a default is declared for the attribute - on it, on its alias type, or on both"""
+    return a["mode"] in DEF_MODES
+
+
+def type_default(a):
+    """the Default(...) declared on the alias TYPE: the promised default (DefaultOf) when the type alone declares one (tdefault),
+    another valid value when the attribute declares one too (bdefault: the attribute's wins, this one must never show)"""
+    if a["mode"] == "tdefault":
+        return design_default(a)
+    k = a["kind"]
+    other = V(k, 5, "half") if k in FLOATS else (V("bool", 0) if k == "bool" else V(k, 5))
+    return concrete_leaf(a, other)
+
+
 def design_default(a):
     """the Default(...) of the design as plain JSON (a map is a JSON object here, not rt.Fill's {"$map": ..})"""
+    if a["nest"] == "nested_alias":         # (the default belongs to the inner attribute of alias type)
+        return concrete_leaf(a, default_of(a))
     c = concrete(a, default_of(a))
     return c["$map"] if isinstance(c, dict) and "$map" in c else c
 
@@ -278,6 +316,8 @@ def concrete(a, v):
         return {"$map": m}
     if nest == "nested":
         return {"v": leaf}
+    if nest == "nested_alias":
+        return {"v": leaf, "w": "k"}
     if nest in ("elem", "alias_elem"):
         return [filler(a)] * (cn - 1) + [leaf] if cn >= 1 else []
     if nest == "mapkey":
